@@ -210,6 +210,61 @@ func exec1(op string) string {
 			ch <- c
 			n := <-c.resp
 			finish(fmt.Sprintf("r%d", n), nil)
+		case t[0] == 'Q' && len(a) == 3:
+			id := uint32(a[0])
+			ch := handler(id)
+			if ch == nil {
+				toks = append(toks, "x")
+				break
+			}
+			hs.mu.Lock()
+			req := hs.reqs[id]
+			hs.mu.Unlock()
+			_, buffered0, readable := bfe_http2.VerifC33Body(req.Body)
+			if !readable {
+				toks = append(toks, "rb")
+				break
+			}
+			c := cmd{kind: 'R', n: a[1], resp: make(chan int, 1)}
+			n := -1
+			ok := cl.V.Held(func(h bfe_http2.VerifC33Held) {
+				// the serve loop is held here
+				ch <- c
+				if buffered0 == 0 || a[1] == 0 {
+					n = <-c.resp // nothing to pull: Read returns at once, no notification
+				} else {
+					deadline := time.Now().Add(30 * time.Second)
+					for {
+						if _, b, _ := bfe_http2.VerifC33Body(req.Body); b < buffered0 {
+							break // the handler has taken its octets out of the pipe
+						}
+						if time.Now().After(deadline) {
+							return
+						}
+						time.Sleep(20 * time.Microsecond)
+					}
+				}
+				switch a[2] {
+				case 0:
+					h.ClientReset(id)
+				case 1:
+					h.ServerReset(id, 8)
+				}
+			})
+			if !ok {
+				finish("", nil)
+				break
+			}
+			if n < 0 {
+				select {
+				case n = <-c.resp:
+				case <-time.After(30 * time.Second):
+					toks = append(toks, "noquiesce")
+					dead = true
+					continue
+				}
+			}
+			finish(fmt.Sprintf("r%d", n), nil)
 		case t[0] == 'C' && len(a) == 1:
 			ch := handler(uint32(a[0]))
 			if ch == nil {
@@ -432,6 +487,32 @@ func gen(r *vh.Rand) string {
 				if s.open {
 					s.win += m
 				}
+			}
+		case k < 79 && r.Chance(1, 2):
+			// read racing with a close
+			s := pick(func(s *gst) bool { return s.handler && s.live && s.buf > 0 })
+			if s == nil {
+				continue
+			}
+			m := []int{1, s.buf, s.buf + 10, s.buf / 2, 70000}[r.Intn(5)]
+			if m < 1 {
+				m = 1
+			}
+			how := r.Intn(3)
+			add("Q%d:%d:%d", s.id, m, how)
+			conn += s.buf
+			if how == 2 {
+				if m > s.buf {
+					m = s.buf
+				}
+				conn -= s.buf - m
+				s.buf -= m
+				if s.open {
+					s.win += m
+				}
+			} else {
+				s.buf = 0
+				s.open, s.live = false, false
 			}
 		case k < 79:
 			s := pick(func(s *gst) bool { return s.handler })
